@@ -149,19 +149,18 @@ def run_cases(res, cases, seed, timeout=1500):
         culprit = next((c for c in cases if c["id"] not in R), cases[-1])
         res.violation("harness died or timed out (rc=%s) around case %s" % (rc, culprit["id"]),
                       case_text(culprit, seed) + "# " + log[-500:].replace("\n", "\n# ") + "\n")
-    with open(mcases, "w") as f:
-        for c in cases:
-            f.write("case %s dir\n" % c["id"])
-            for l in R.get(c["id"], []):
-                if l.startswith("@model "):
-                    f.write(l[len("@model "):] + "\n")
-            for fd in c.get("finds", []):
-                f.write("find %s ordered=%d %s\n" % (fd["index"], fd["ordered"], " ".join("%s=%s" % (n, val_str(v)) for n, v in fd["key"])))
-            f.write("end\n")
-    rc, log = C.run_model(mcases, model_out)
-    if rc != 0:
-        res.violation("model driver crashed (exit %d)" % rc, log[-2000:], found_input=False)
-    M = C.read_obs(model_out)
+    blocks = []
+    for c in cases:
+        b = "case %s dir\n" % c["id"]
+        for l in R.get(c["id"], []):
+            if l.startswith("@model "):
+                b += l[len("@model "):] + "\n"
+        for fd in c.get("finds", []):
+            b += "find %s ordered=%d %s\n" % (fd["index"], fd["ordered"], " ".join("%s=%s" % (n, val_str(v)) for n, v in fd["key"]))
+        blocks.append(b + "end\n")
+    M, problems = C.run_model_sharded(blocks, wd, timeout=max(timeout, 1800))
+    for pr in problems:
+        res.violation(pr, "".join(blocks[:1]), found_input=False)
     C.sh(["rm", "-rf", tmp])
     return R, M
 
